@@ -233,7 +233,7 @@ func (x *Exec) staticCall(fr *Frame, st *State, ins ssa.Instruction, cc *ssa.Cal
 		x.pureCall(fr, st, full, sig, args, res)
 		return
 	}
-	if x.canInline(callee) && !x.onStack(callee) && fr.depth < 12 {
+	if x.canInline(callee) && !x.onStack(callee) && fr.depth < 12 && !x.thinSkip(callee) {
 		x.inlineCall(fr, st, ins, callee, clo, args, res)
 		return
 	}
@@ -290,6 +290,19 @@ func (x *Exec) canInline(fn *ssa.Function) bool {
 		x.eng.inlineOK[fn] = 2
 	}
 	return ok
+}
+
+// thinSkip: in a unit marked noinline, callees without contract are havocked rather than executed
+// in place, unless they are small leaves.
+func (x *Exec) thinSkip(callee *ssa.Function) bool {
+	if x.root == nil || x.root.contract == nil || !x.root.contract.NoInline {
+		return false
+	}
+	n := 0
+	for _, b := range callee.Blocks {
+		n += len(b.Instrs)
+	}
+	return n > 60
 }
 
 // callsRecover: the function or one of its function literals calls the builtin recover.
@@ -366,6 +379,36 @@ func usesOld(fn *ssa.Function, seen map[*ssa.Function]bool) bool {
 			}
 			if mc, ok := ins.(*ssa.MakeClosure); ok {
 				if usesOld(mc.Fn.(*ssa.Function), seen) {
+					return true
+				}
+			}
+		}
+	}
+	return false
+}
+
+// usesCallHistory: the ghost function (or a function literal / ghost function it uses) reads the
+// call history of the function under verification.
+func usesCallHistory(fn *ssa.Function, seen map[*ssa.Function]bool) bool {
+	if seen[fn] {
+		return false
+	}
+	seen[fn] = true
+	for _, b := range fn.Blocks {
+		for _, ins := range b.Instrs {
+			if c, ok := ins.(ssa.CallInstruction); ok {
+				if callee := c.Common().StaticCallee(); callee != nil {
+					switch intrinsicName(callee) {
+					case "vs_called", "vs_callArg", "vs_callResult", "vs_callOrder":
+						return true
+					}
+					if strings.HasPrefix(callee.Name(), "vs_") && usesCallHistory(callee, seen) {
+						return true
+					}
+				}
+			}
+			if mc, ok := ins.(*ssa.MakeClosure); ok {
+				if usesCallHistory(mc.Fn.(*ssa.Function), seen) {
 					return true
 				}
 			}
@@ -459,6 +502,11 @@ func (x *Exec) contractCall(fr *Frame, st *State, ins ssa.Instruction, c *Contra
 	// 1. preconditions
 	if !fr.spec {
 		for i, cl := range c.Requires {
+			if skipClause(cl, x.eng) {
+				// a precondition tagged with a property is an obligation of callers only in that
+				// property's check (and an assumption of the callee's proof everywhere)
+				continue
+			}
 			t := x.evalGhost(fr, x.ghostOf(c, cl.Ghost), args, nil, st, nil)
 			x.oblige(fr, "requires@call", fmt.Sprintf("%s pre %d: %s", c.Key, i+1, cl.Orig), st, t, pos)
 		}
@@ -538,6 +586,9 @@ func (x *Exec) contractCall(fr *Frame, st *State, ins ssa.Instruction, c *Contra
 	for _, cl := range c.Ensures {
 		if cl.Known {
 			continue // a clause recorded as a known finding is never assumed
+		}
+		if usesCallHistory(x.ghostOf(c, cl.Ghost), map[*ssa.Function]bool{}) {
+			continue // speaks about the callee's own call history: meaningless in the caller's
 		}
 		t := x.evalGhost(fr, x.ghostOf(c, cl.Ghost), append(append([]Term{}, args...), results...), nil, st, pre)
 		if vc.noName > 0 {
@@ -824,10 +875,17 @@ func (x *Exec) havocReachable(fr *Frame, st *State, sig *types.Signature, args [
 		x.oblige(fr, "frame", "unmodelled call may write: "+why, st, tFalse, pos)
 	}
 	for _, h := range heaps {
+		var oldH Term
+		if len(x.stableFields(h.name)) > 0 {
+			oldH = x.heap(st, h)
+		}
 		nh := x.vc.fresh(h.name, h.sort)
 		st.heaps[h.name] = nh
 		st.written["h:"+h.name] = true
 		st.markDirty(h.name)
+		if oldH.S != "" {
+			x.keepStable(h.name, oldH, nh, st.top)
+		}
 	}
 	if len(heaps) > 0 {
 		x.note("havoc of %d heaps at unmodelled call %s", len(heaps), why)
@@ -1036,6 +1094,7 @@ var pureNames = map[string]bool{
 	"github.com/go-openapi/inflect.Pluralize": true, "github.com/go-openapi/inflect.Singularize": true,
 	"reflect.DeepEqual": true, "errors.Is": true, "github.com/go-openapi/swag.IsZero": true,
 	"os.Getenv": true, "(reflect.StructTag).Get": true,
+	"(*github.com/go-openapi/analysis.Spec).SecurityRequirementsFor": true, "(*github.com/go-openapi/analysis.Spec).SecurityDefinitionsFor": true,
 }
 
 func (x *Exec) pureByName(full string) bool { return pureNames[full] }
